@@ -575,7 +575,8 @@ pub(crate) struct LocalTimeType {
 impl LocalTimeType {
     /// Construct a local time type
     pub(super) fn new(ut_offset: i32, is_dst: bool, name: Option<&[u8]>) -> Result<Self, Error> {
-        if ut_offset == i32::MIN {
+        // `Local` hands offsets out as `FixedOffset`, which must be strictly within 24 hours of UTC.
+        if ut_offset <= -86_400 || ut_offset >= 86_400 {
             return Err(Error::LocalTimeType("invalid UTC offset"));
         }
 
@@ -589,7 +590,7 @@ impl LocalTimeType {
 
     /// Construct a local time type with the specified UTC offset in seconds
     pub(super) const fn with_offset(ut_offset: i32) -> Result<Self, Error> {
-        if ut_offset == i32::MIN {
+        if ut_offset <= -86_400 || ut_offset >= 86_400 {
             return Err(Error::LocalTimeType("invalid UTC offset"));
         }
 
